@@ -453,7 +453,41 @@ fn analyze_inner(view: &View, cfg: &Cfg, script: &Script, quirks: Quirks, a: &mu
 
     match carrier {
         Carrier::Header => {
-            let raw = auth_headers[0];
+            // White space around the comma-separated parameters is trimmed; the crate documents "white space" for that
+            // trim as ASCII white space (`u8::is_ascii_whitespace`), so a TAB in the run of blanks next to a comma or at
+            // either end of the header is separator white space like a space. A TAB anywhere else (inside a parameter,
+            // between the algorithm and the first parameter) is left unjudged.
+            let raw0 = auth_headers[0];
+            let mut raw_owned: Vec<u8> = raw0.clone();
+            {
+                let n = raw_owned.len();
+                let is_blank = |c: u8| c == b' ' || c == b'\t';
+                let mut sep_ws = vec![false; n];
+                // runs of blanks touching a comma, the start or the end
+                let mut i = 0;
+                while i < n {
+                    if is_blank(raw0[i]) {
+                        let st = i;
+                        while i < n && is_blank(raw0[i]) {
+                            i += 1;
+                        }
+                        let touches = st == 0 || i == n || raw0[st - 1] == b',' || raw0[i] == b',';
+                        if touches {
+                            for f in sep_ws.iter_mut().take(i).skip(st) {
+                                *f = true;
+                            }
+                        }
+                    } else {
+                        i += 1;
+                    }
+                }
+                for k in 0..n {
+                    if raw_owned[k] == b'\t' && sep_ws[k] {
+                        raw_owned[k] = b' ';
+                    }
+                }
+            }
+            let raw = &raw_owned;
             if has_odd_ws(raw) {
                 return dc(Stage::Algorithm, "TAB in Authorization header");
             }
